@@ -27,8 +27,8 @@ def arg_name(n):
 # family: name, tier, args, matching! source, reference (bool expr over the arg names, by reference), per-position
 # sub-patterns for the mask check (None = not guard-free single-alternative), unwind
 F = []
-def fam(name, tier, args, pat, ref, subs=None, unwind=6):
-    F.append(dict(name=name, tier=tier, args=args, pat=pat, ref=ref, subs=subs, unwind=unwind))
+def fam(name, tier, args, pat, ref, subs=None, unwind=6, pre=()):
+    F.append(dict(name=name, tier=tier, args=args, pat=pat, ref=ref, subs=subs, unwind=unwind, pre=list(pre)))
 
 fam("lits_ranges_or", "quick", [arg_u8("a"), arg_u8("b"), arg_u8("c")], "1..=5, _, 7 | 9",
     "matches!((a, b, c), (1..=5, _, 7 | 9))", ["1..=5", "_", "7 | 9"])
@@ -53,6 +53,11 @@ fam("string_slice_mix", "quick", [arg_string("a"), arg_i32("b"), arg_slice("c")]
 fam("struct_enum", "quick", [arg_pt("a"), arg_en("b")], "Pt { x: 0, .. }, En::A(_) | En::B",
     "matches!((&a, &b), (Pt { x: 0, .. }, En::A(_) | En::B))", ["Pt { x: 0, .. }", "En::A(_) | En::B"])
 fam("at_binding_guard", "quick", [arg_u8("a")], "(n @ 1..=9) if *n % 2 == 0", "match a { n @ 1..=9 if n % 2 == 0 => true, _ => false }")
+# a guard on a method without inputs (the guard reads state from outside), and bare identifiers that are NOT bindings
+# (`None`, an imported unit variant, a constant)
+fam("zero_arity_guard", "quick", [], "() if OPEN.load(core::sync::atomic::Ordering::SeqCst)", "open",
+    pre=["let open: bool = kani::any();", "OPEN.store(open, core::sync::atomic::Ordering::SeqCst);"])
+fam("bare_ident_paths", "quick", [arg_opt("a"), arg_en("b")], "None, B", "matches!((a, &b), (None, En::B))", ["None", "En::B"])
 fam("at_binding", "thorough", [arg_u8("a")], "n @ 1..=9", "matches!(a, 1..=9)", ["n @ 1..=9"])
 fam("newtype_str", "thorough", [arg_name("a")], '"ab"', 'a.0 == "ab"', ['"ab"'])
 fam("enum_struct_variant", "thorough", [arg_en("a"), arg_u8("b")], "En::C { x: 3..=4 }, 0", "matches!((&a, b), (En::C { x: 3..=4 }, 0))", ["En::C { x: 3..=4 }", "0"])
@@ -75,6 +80,9 @@ pub enum En {
     B,
     C { x: u8 },
 }
+#[allow(unused_imports)]
+use self::En::B;
+pub static OPEN: core::sync::atomic::AtomicBool = core::sync::atomic::AtomicBool::new(false);
 #[derive(Debug, Clone, PartialEq)]
 pub struct Name(pub &'static str);
 impl AsRef<str> for Name {
@@ -97,7 +105,7 @@ def emit(e):
     args = e["args"]
     sig = ", ".join(f"p{i}: {a[0]}" for i, a in enumerate(args))
     trait = f"#[unimock(api = M_{n})]\npub trait T_{n} {{\n    fn f(&self{', ' if sig else ''}{sig});\n}}\n"
-    binds = "\n        ".join(a[1] for a in args)
+    binds = "\n        ".join(list(e.get("pre", [])) + [a[1] for a in args])
     names = [a[2] for a in args]
     if len(names) == 0:
         inputs = "()"
